@@ -707,3 +707,22 @@ def run_case(cfg):
             viol.append(V("unused-tensor-has-nonzero-gradient:order2", {"label": lab, "grad": rnd(g.detach())}, wrt=lab))
     obs["r2"] = rnd(worst, 2)
     return {"viol": viol, "obs": obs, "status": "violation" if viol else "ok", "n": nexec}
+
+# ---- call-order plane (executed by mc/core.py in fresh interpreters, see mc/props/_hist_common.py): the result of
+# a call must not depend on which other calls (other dtype / method / size / options) were made before it
+_HIST_LABELS = [('float32', 3, 0), ('float64', 3, 0), ('float64', 9, 0), ('float64', 3, 7), ('float64', 9, 4)]
+HISTORY = {"labels": ["/".join(str(x) for x in c) for c in _HIST_LABELS], "tol": [0.0001, 1e-12, 1e-12, 1e-12, 1e-12],
+           "depth": {"quick": 2, "thorough": 3},
+           "prelude": r'''import torch, xitorch
+from xitorch.integrate import quad
+CALLS = %r
+def do(i):
+    dtn, n, nb = CALLS[i]
+    dt = getattr(torch, dtn)
+    a = torch.tensor(0.8, dtype=dt, requires_grad=True)
+    xu = torch.tensor(1.25, dtype=dt, requires_grad=True)
+    kw = {"bck_options": {"n": nb}} if nb else {}
+    y = quad(lambda x, a: torch.exp(-a * x * x) * (1.0 + x), -0.5, xu, params=(a,), n=n, **kw)
+    ga, gu = torch.autograd.grad(y, (a, xu))
+    return [float(y), float(ga), float(gu)]
+''' % (_HIST_LABELS,)}
